@@ -150,6 +150,12 @@ type StepResult struct {
 type TxnSpec struct {
 	Steps  []Step
 	FailAt int // -1: commit; k: the body returns an error right after step k
+	// Panic: instead of returning an error the body PANICS right after step FailAt (between two
+	// steps, where no latch is held) and the caller recovers. Only generated for bodies that have
+	// not inserted anything by then (a panic skips the rollback that releases reserved offsets;
+	// the properties speak of bodies that RETURN an error). Nothing of such a body may ever
+	// become visible or be emitted.
+	Panic bool
 }
 
 func (s *Schema) renderStores(stores []Store) string {
@@ -200,6 +206,9 @@ func (s *Schema) renderTxn(t TxnSpec) string {
 	end := "commit"
 	if t.FailAt >= 0 {
 		end = fmt.Sprintf("rollback-after-step-%d", t.FailAt)
+		if t.Panic {
+			end = fmt.Sprintf("panic-after-step-%d (recovered by the caller)", t.FailAt)
+		}
 	}
 	return "txn[" + strings.Join(parts, "; ") + "] " + end
 }
